@@ -1447,10 +1447,212 @@ fn oracle_costs_vectors() -> OracleReport {
     rep
 }
 
+
+// ------------------------------------------------------------------------------------------------
+// oracle costs_doc: the NEW_COST_MODEL formulas exactly as docs/cost-model.md states them (finding G)
+// ------------------------------------------------------------------------------------------------
+
+fn doc_int(b: &[u8]) -> num_bigint::BigInt {
+    num_bigint::BigInt::from_signed_bytes_be(b)
+}
+fn doc_limbs(v: &num_bigint::BigInt) -> u64 {
+    v.bits().div_ceil(8)
+}
+/// "magnitude" of an argument: leading zero bytes in the atom representation don't inflate the cost
+fn doc_mag(b: &[u8]) -> u64 {
+    doc_limbs(&doc_int(b))
+}
+
+/// `(cost by the markdown formula, without the allocation charge the markdown never mentions;
+///   is the input inside the region to which finding G is delimited?)`.
+/// Region (Lean: `doc_agrees_*` in Props/C10.lean prove agreement outside it): add / subtract / multiply /
+/// div / divmod / mod / modpow — some argument whose atom length differs from its magnitude; logand / logior /
+/// logxor — some argument shorter than the accumulator it meets (the initial one included).
+/// The remaining operators are controls (formula shape from the markdown's "only constant changes"
+/// list and the pre-hard-fork add formula it quotes): their region is empty.
+fn doc_cost(name: &str, new_model: bool, args: &[Vec<u8>]) -> Option<(u64, bool)> {
+    use num_bigint::BigInt;
+    let n = args.len() as u64;
+    let lens: Vec<u64> = args.iter().map(|a| a.len() as u64).collect();
+    let mags: Vec<u64> = args.iter().map(|a| doc_mag(a)).collect();
+    let padded = lens.iter().zip(&mags).any(|(l, m)| l != m);
+    let sum_len: u64 = lens.iter().sum();
+    Some(match (name, new_model) {
+        ("op_add", false) | ("op_subtract", false) => (99 + 320 * n + 3 * sum_len, false),
+        ("op_add", true) | ("op_subtract", true) => {
+            let mut acc = BigInt::from(0);
+            let mut cost = 99;
+            for (i, a) in args.iter().enumerate() {
+                cost += 500 + 4 * doc_limbs(&acc).max(mags[i]);
+                let v = doc_int(a);
+                acc = if name == "op_add" || i == 0 { acc + v } else { acc - v };
+            }
+            (cost, padded)
+        }
+        ("op_multiply", true) => {
+            let mut cost = 2000;
+            if let Some(a0) = args.first() {
+                cost += 6 * mags[0];
+                let mut acc = doc_int(a0);
+                for (i, a) in args.iter().enumerate().skip(1) {
+                    let (l0, l1) = (doc_limbs(&acc), mags[i]);
+                    cost += 885 + 6 * (l0 + l1) + l0 * l1 / 16;
+                    acc *= doc_int(a);
+                }
+            }
+            (cost, padded)
+        }
+        ("op_div", true) | ("op_divmod", true) | ("op_mod", true) if args.len() == 2 => {
+            (1000 + 50 * (mags[0] + mags[1]) + mags[0] * mags[1] / 10, padded)
+        }
+        ("op_modpow", true) if args.len() == 3 => {
+            let (b, e, m) = (mags[0], mags[1], mags[2]);
+            (17000 + e * 8 * (m * m + 4000) + b * m, padded)
+        }
+        ("op_logand", true) | ("op_logior", true) | ("op_logxor", true) => {
+            let mut acc = if name == "op_logand" { BigInt::from(-1) } else { BigInt::from(0) };
+            let mut eff = 0u64;
+            let mut region = false;
+            let neg = |v: &BigInt| v.sign() == num_bigint::Sign::Minus;
+            for (i, a) in args.iter().enumerate() {
+                let v = doc_int(a);
+                if doc_limbs(&acc) > lens[i] {
+                    region = true;
+                }
+                eff += if i > 0 && neg(&acc) != neg(&v) { lens[i].max(doc_limbs(&acc)) } else { lens[i] };
+                acc = match name {
+                    "op_logand" => acc & v,
+                    "op_logior" => acc | v,
+                    _ => acc ^ v,
+                };
+            }
+            (100 + 264 * n + 3 * eff, region)
+        }
+        // controls: "operators with only constant changes"
+        // `>` returns one of the two constant atoms: nothing is allocated, so the result is not charged;
+        // cancel the allocation charge the caller adds (result = 1 byte when true)
+        ("op_gr", true) if args.len() == 2 => {
+            let gt = doc_int(&args[0]) > doc_int(&args[1]);
+            ((1000 + 4 * sum_len).wrapping_sub(if gt { 10 } else { 0 }), false)
+        }
+        ("op_sha256", true) => (1000 + 160 * n + 6 * sum_len, false),
+        ("op_concat", _) => (142 + 135 * n + 3 * sum_len, false),
+        _ => return None,
+    })
+}
+
+fn result_atom_bytes(a: &Allocator, n: NodePtr) -> u64 {
+    match a.sexp(n) {
+        SExp::Atom => a.atom_len(n) as u64,
+        SExp::Pair(l, r) => result_atom_bytes(a, l) + result_atom_bytes(a, r),
+    }
+}
+
+const DOC_OPS: [(&str, bool); 15] = [
+    ("op_add", true), ("op_subtract", true), ("op_multiply", true), ("op_div", true), ("op_divmod", true),
+    ("op_mod", true), ("op_modpow", true), ("op_logand", true), ("op_logior", true), ("op_logxor", true),
+    ("op_gr", true), ("op_sha256", true), ("op_concat", true), ("op_add", false), ("op_subtract", false),
+];
+
+fn oracle_costs_doc(rng: &mut Rng, n: usize) -> OracleReport {
+    let mut rep = OracleReport::default();
+    let mut known_emitted = 0usize;
+    let mut check = |rep: &mut OracleReport, name: &str, new_model: bool, args: &[Vec<u8>], directed: bool| {
+        let Some((doc, region)) = doc_cost(name, new_model, args) else { return };
+        let mut a = Allocator::new();
+        let nodes: Vec<NodePtr> = args.iter().map(|b| build_atom(&mut a, b)).collect();
+        let l = list_of(&mut a, &nodes);
+        let flags = ClvmFlags::from_bits_truncate(if new_model { 0x2000 } else { 0 });
+        rep.evaluations += 1;
+        let Ok(Reduction(cost, ret)) = op_by_name(name).unwrap()(&mut a, l, 1_000_000_000_000, flags) else {
+            rep.hit("call-failed");
+            return;
+        };
+        rep.nontrivial += 1;
+        let doc = doc.wrapping_add(10 * result_atom_bytes(&a, ret));
+        rep.hit(&format!("{}-{}", name, if new_model { "new" } else { "old" }));
+        if region {
+            rep.hit("in-region");
+        }
+        if cost == doc {
+            rep.hit("agree");
+            return;
+        }
+        let input = format!("{} args=[{}] crate={} doc={}", name, args.iter().map(|b| hex_or_dash(b)).collect::<Vec<_>>().join(","), cost, doc);
+        if region && new_model {
+            rep.hit("known-G-deviation");
+            if directed || known_emitted < 8 {
+                known_emitted += 1;
+                rep.fail("costs_doc", format!("KNOWN-G-doc-cost-model {input}"));
+            }
+        } else {
+            rep.fail("costs_doc", format!("MISMATCH (outside the region of finding G) {input}"));
+        }
+        rep.sample(input);
+    };
+    // the directed examples = the witnesses `doc_formula_witness_*` of Props/C10.lean
+    let d: Vec<(&str, Vec<Vec<u8>>)> = vec![
+        ("op_logand", vec![vec![0x40, 0, 0], vec![1]]),
+        ("op_logand", vec![vec![]]),
+        ("op_logior", vec![vec![0x40, 0, 0], vec![1]]),
+        ("op_logxor", vec![vec![0x40, 0, 0], vec![1]]),
+        ("op_add", vec![vec![0, 0, 1]]),
+        ("op_subtract", vec![vec![0, 0, 1]]),
+        ("op_multiply", vec![vec![0, 0, 2], vec![0, 0, 3]]),
+        ("op_div", vec![vec![0, 0, 7], vec![0, 0, 2]]),
+        ("op_divmod", vec![vec![0, 0, 7], vec![0, 0, 2]]),
+        ("op_mod", vec![vec![0, 0, 7], vec![0, 0, 2]]),
+        ("op_modpow", vec![vec![0, 2], vec![0, 3], vec![0, 5]]),
+    ];
+    for (name, args) in &d {
+        check(&mut rep, name, true, args, true);
+    }
+    // random argument lists: minimal integers, optionally padded with redundant sign bytes
+    for _ in 0..n {
+        let (name, nm) = *rng.pick(&DOC_OPS);
+        let k = match name {
+            "op_div" | "op_divmod" | "op_mod" | "op_gr" => 2,
+            "op_modpow" => 3,
+            _ => rng.below(5) as usize,
+        };
+        let mut args: Vec<Vec<u8>> = Vec::new();
+        for i in 0..k {
+            let len = *rng.pick(&[0usize, 1, 1, 2, 3, 4, 8, 9, 17, 40]);
+            let mut b = rng.bytes(len);
+            // minimal two's complement
+            while b.len() > 1 && ((b[0] == 0 && b[1] & 0x80 == 0) || (b[0] == 0xff && b[1] & 0x80 != 0)) {
+                b.remove(0);
+            }
+            if b == [0] {
+                b.clear();
+            }
+            let must_be_positive = name == "op_modpow" && i == 1;
+            if must_be_positive && !b.is_empty() && b[0] & 0x80 != 0 {
+                b.insert(0, 0); // a required sign byte: len = mag + 1
+            }
+            if (name == "op_div" || name == "op_divmod" || name == "op_mod") && i == 1 || name == "op_modpow" && i == 2 {
+                if doc_int(&b) == num_bigint::BigInt::from(0) {
+                    b = vec![7];
+                }
+            }
+            if rng.chance(1, 3) {
+                let neg = !b.is_empty() && b[0] & 0x80 != 0;
+                for _ in 0..rng.below(3) + 1 {
+                    b.insert(0, if neg { 0xff } else { 0 });
+                }
+            }
+            args.push(b);
+        }
+        check(&mut rep, name, nm, &args, false);
+    }
+    rep
+}
+
 pub fn oracle(name: &str, rng: &mut Rng, n: usize, tier: &str) -> OracleReport {
     match name {
         "costs_vectors" => oracle_costs_vectors(),
         "unknown_rule" => oracle_unknown_rule(rng, n, tier),
+        "costs_doc" => oracle_costs_doc(rng, n),
         _ => panic!("unknown oracle {name}"),
     }
 }
